@@ -188,6 +188,10 @@ type qcase struct {
 	// OracleOnly: judged by the oracle on the implementation only, no model case (queues whose
 	// fragment groups COMPLETE on the receiver: reassembly is C02's model, not this one)
 	OracleOnly bool
+	// Host: the receiver is a client Session hosting a Proxy whose proxied clients are Prox
+	// (real Proxy.accept routing); the sender is the server's side of the host
+	Host bool
+	Prox []int
 }
 
 func errCode(err error) int {
@@ -233,6 +237,16 @@ func run(c qcase) {
 		ids[i] = devID(d)
 	}
 	w := c2.C03NewWorld(ids)
+	var host *c2.C03Host
+	if c.Host {
+		pi := make([]device.ID, len(c.Prox))
+		for i, d := range c.Prox {
+			pi[i] = devID(d)
+		}
+		host = c2.C03NewHost(devID(c.Own), pi)
+		w = host.World()
+		desc["receiver_hosts_proxy_for"] = c.Prox
+	}
 	s := c2.C03NewSender(devID(c.Own), c.Server)
 	if c.Last != 0 {
 		c2.C03SetLast(s, c.Last)
@@ -324,7 +338,11 @@ func run(c qcase) {
 					desc["panic"] = fmt.Sprint(x)
 				}
 			}()
-			perr = w.C03Process(devID(c.Own), &r)
+			if host != nil {
+				perr = host.Receive(&r)
+			} else {
+				perr = w.C03Process(devID(c.Own), &r)
+			}
 		}()
 		if panicked {
 			out.Fail("the receiving side panicked", "recv-panic", desc)
@@ -335,6 +353,19 @@ func run(c qcase) {
 			anyErr++
 		}
 		dm, df := collect(w, e0, seen)
+		if host != nil {
+			// what landed in the queue of each proxied client, in order
+			for k, d := range c.Prox {
+				for _, q := range host.Queued(k) {
+					e := dlv{Sid: d, ID: q.ID, Job: q.Job, Dev: devNum(q.Device), Flags: uint64(q.Flags),
+						Tags: append([]uint32(nil), q.Tags...), Len: q.Chunk.Size()}
+					if q.Flags&(com.FlagMulti|com.FlagMultiDevice) == 0 {
+						e.Cid = cidOf(q.Payload())
+					}
+					dm = append(dm, e)
+				}
+			}
+		}
 		mux = append(mux, dm...)
 		frags = append(frags, df...)
 		ds := make([]string, len(dm))
@@ -371,6 +402,14 @@ func run(c qcase) {
 	}
 	term := fmt.Sprintf("CDrain (mkConf %d %d %d %s %s) %s %d %s %s", F, NP, c.Own, vh.B(c.Inter), pt, vh.ZList64(reg), c.Last,
 		vh.List(qs), vh.List(obs))
+	if c.Host {
+		px := make([]int64, len(c.Prox))
+		for i, d := range c.Prox {
+			px[i] = int64(d)
+		}
+		term = fmt.Sprintf("CHost (mkConf %d %d %d %s %s) %s %d %s %s", F, NP, c.Own, vh.B(c.Inter), pt, vh.ZList64(px), c.Last,
+			vh.List(qs), vh.List(obs))
+	}
 	nontrivial := false
 	for i := range c.Q {
 		if !c.Q[i].isNop() {
@@ -537,6 +576,17 @@ func oracle(c qcase, desc map[string]interface{}, mux, frags []dlv) {
 		} else {
 			em = append(em, e)
 		}
+	}
+	if c.Host {
+		// routing by device: compare per destination (the host's handlers, then each proxied client's queue)
+		key := func(sid int) int {
+			if sid == c.Own {
+				return -1
+			}
+			return sid
+		}
+		sort.SliceStable(em, func(a, b int) bool { return key(em[a].d.Sid) < key(em[b].d.Sid) })
+		sort.SliceStable(mux, func(a, b int) bool { return key(mux[a].Sid) < key(mux[b].Sid) })
 	}
 	// mux-visible packets: delivered must be a subsequence of expected; what is missing must be abandonable
 	j := 0
@@ -1269,6 +1319,58 @@ func main() {
 		runPC(qcase{Own: 1, Reg: []int{1}, Class: "pc-cont", Q: []gp{container(1, md, nil, x1(1), x1(1)), mk(9, 1, 0, 3)}})
 		runPC(qcase{Own: 1, Reg: []int{1}, Class: "pc-cont", Q: []gp{mk(9, 1, 0, 3), container(1, md, nil, x1(1), x1(1)), container(1, 0, nil, x1(1))}})
 		runPC(qcase{Own: 1, Reg: []int{1}, Class: "pc-cont", Q: []gp{container(1, md, nil, mk(8, 1, 0, hb), x1(1)), container(1, md, nil, mk(8, 1, 0, hb))}})
+	}
+
+	// ---- the receiver hosts a Proxy: every sub-packet must reach the destination its Device names
+	// (the host's handlers or the queue of that proxied client), runs of the same device included
+	{
+		hh := func(class string, own int, prox []int, q ...gp) {
+			run(qcase{Own: own, Server: true, Reg: regOf(own, prox), Q: q, Class: class, Host: true, Prox: prox})
+		}
+		d := func(id uint8, dev int) gp { return mk(id, dev, 0, 3) }
+		hh("host-corpus", 1, []int{2}, d(8, 2), d(9, 2), d(10, 1), d(11, 2))
+		hh("host-corpus", 1, []int{2}, d(8, 1), d(9, 1), d(10, 2), d(11, 2), d(12, 1))
+		hh("host-corpus", 1, []int{2, 3}, d(8, 2), d(9, 2), d(10, 2), d(11, 3), d(12, 3), d(13, 1), d(14, 1))
+		hh("host-corpus", 1, []int{2}, d(8, 2))
+		hh("host-corpus", 1, []int{2}, d(8, 2), d(9, 2))
+		hh("host-corpus", 1, []int{2}, nopOf(2), d(8, 2), nopOf(2), d(9, 2), nopOf(1), d(10, 1))
+		hh("host-corpus", 1, []int{2, 3}, d(8, 3), d(9, 2), d(10, 3), d(11, 2))
+		hh("host-corpus", 1, []int{2}, d(8, 0), d(9, 2), d(10, 2), d(11, 0))
+		hh("host-corpus", 1, []int{2}, gp{ID: 9, Job: 77, Dev: 2, Tags: []uint32{5, 6}, Len: 3, Seed: 4}, d(10, 2), d(11, 1))
+		hh("host-corpus", 1, []int{2})
+		nhost := 70
+		if thorough {
+			nhost = 1200
+		}
+		for it := 0; it < nhost; it++ {
+			own := 1 + g.r.Intn(3)
+			prox := []int{own + 3}
+			if g.r.Bool() {
+				prox = append(prox, own+4)
+			}
+			n := 1 + g.r.Intn(10)
+			if g.r.Intn(6) == 0 {
+				n = NP - 2 + g.r.Intn(6)
+			}
+			var q []gp
+			cur := own
+			for len(q) < n {
+				if g.r.Intn(3) == 0 { // runs of the same destination
+					cur = append([]int{own, 0}, prox...)[g.r.Intn(2+len(prox))]
+				}
+				switch x := g.r.Intn(100); {
+				case x < 10:
+					q = append(q, gp{Dev: cur, ID: uint8(g.r.Intn(2))})
+				case x < 16 && (cur == own || cur == 0) && len(q)+2 <= n:
+					q = append(q, g.fragRun(own, uint16(1+g.r.Intn(65535)), 1+g.r.Intn(2), []string{"1", "1k"})...)
+				default:
+					p := g.dataPkt(own, nil, []string{"0", "1", "1k", "r"})
+					p.Dev = cur
+					q = append(q, p)
+				}
+			}
+			hh("host-random", own, prox, q...)
+		}
 	}
 
 	// ---- oracle-only: a fragment group that COMPLETES inside one container, followed by more packets
